@@ -369,7 +369,11 @@ class World:
     self.nexp = 0
 
   def fresh_copy(self, weights):
-    m = M.build_model(self.mspec)
+    if getattr(self, "frozen_json", None):
+      from qkeras import utils as qu
+      m = qu.quantized_model_from_json(self.frozen_json)
+    else:
+      m = M.build_model(self.mspec)
     m.set_weights(weights)
     return m
 
@@ -567,16 +571,48 @@ def op_crash_all(ctx, w, op):
 
 
 def op_freeze(ctx, w, op):
+  """clone_model_and_freeze_auto_po2_scale: the returned model carries frozen
+  post-training scales, so from here on it counts as data independent and the
+  export clauses (predictions unchanged, second export changes nothing) are
+  judged strictly on it."""
   from qkeras import utils as qu
+  hw_mode = bool(op.get("hw"))
+  before = M.weights_snapshot(w.model)
   ok, res = guard(ctx, "freeze", qu.clone_model_and_freeze_auto_po2_scale,
-                  w.model)
-  ctx.fault("freeze_auto_po2")
+                  w.model, None, hw_mode)
+  ctx.fault("freeze_auto_po2" + ("_hw" if hw_mode else ""))
   if not ok:
     return
-  new_model, _ = res
-  y0 = M.predict(w.model, w.x)
+  new_model, hw = res
   ctx.checked()
+  if not M.same_weights(before, M.weights_snapshot(w.model)):
+    ctx.violation("freeze|original-model-modified",
+                  "the freezing utility changed the weights of the model it "
+                  "was given")
+    return
+  old_cls = [type(l).__name__ for l in w.model.layers]
+  new_cls = [type(l).__name__ for l in new_model.layers]
+  if old_cls != new_cls:
+    ctx.violation("freeze|architecture-changed",
+                  "layers %r became %r" % (old_cls, new_cls))
+    return
+  for l in exported_layers(new_model):
+    for nm, q in role_pairs(l):
+      if q is None or getattr(q, "alpha", None) != "auto_po2":
+        continue
+      if getattr(q, "post_training_scale", None) is None:
+        ctx.violation("freeze|%s|auto-po2-scale-not-frozen" % type(l).__name__,
+                      "%s of %s still has a data-dependent scale after the "
+                      "freezing utility" % (nm, l.name))
+        return
+      ctx.probe("frozen_quantizers")
+  if not hw_mode:
+    if not M.same_weights(before, M.weights_snapshot(new_model)):
+      ctx.violation("freeze|weights-not-copied",
+                    "the frozen model does not hold the original weights")
+      return
   w.model = new_model
+  w.frozen_json = new_model.to_json()
   ctx.probe("continued_on_frozen_model")
 
 
@@ -697,7 +733,67 @@ def gen_c14_model(rng):
   return m
 
 
+def gen_freeze_world(rng):
+  """Sequential models inside the family the freezing utility supports."""
+  qb = {"cls": "quantized_bits", "kw": {"bits": rng.pick([3, 4, 6]),
+                                        "integer": rng.pick([0, 1]),
+                                        "symmetric": 1}}
+  qb8 = {"cls": "quantized_bits", "kw": {"bits": 8, "integer": 2}}
+
+  def auto():
+    kw = {"bits": rng.pick([2, 3, 4, 8]), "alpha": "auto_po2",
+          "symmetric": rng.pick([0, 1])}
+    if rng.chance(0.3):
+      kw["integer"] = rng.pick([0, 1])
+    if rng.chance(0.2):
+      kw["scale_axis"] = None
+    return {"cls": "quantized_bits", "kw": {k: v for k, v in kw.items()
+                                            if v is not None}}
+
+  def wq():
+    return auto() if rng.chance(0.6) else qb
+
+  layers = []
+  for _ in range(rng.randint(1, 2)):
+    if rng.chance(0.65):
+      layers.append({"t": "QConv2D", "filters": rng.pick([2, 3]), "kernel": 2,
+                     "strides": 1, "padding": rng.pick(["valid", "same"]),
+                     "use_bias": rng.chance(0.7), "kq": wq(),
+                     "bq": rng.pick([qb, qb8, None])})
+    else:
+      layers.append({"t": "QDepthwiseConv2D", "kernel": 2, "strides": 1,
+                     "padding": "same", "depth_multiplier": rng.pick([1, 2]),
+                     "use_bias": rng.chance(0.7), "dq": wq(),
+                     "bq": rng.pick([qb, None])})
+    if rng.chance(0.5):
+      c, sc = rng.chance(0.8), rng.chance(0.8)
+      bn = {"t": "QBatchNormalization", "center": c, "scale": sc}
+      if rng.chance(0.5):
+        bn["defaults"] = True
+      else:
+        bn.update({"gq": None, "beq": qb8, "mq": qb8, "vq": None,
+                   "iq": auto() if rng.chance(0.6) else qb8})
+      layers.append(bn)
+    if rng.chance(0.4):
+      layers.append({"t": "QActivation", "aq": {"str": "quantized_relu(4)"}})
+  layers.append({"t": "Flatten"})
+  if rng.chance(0.7):
+    layers.append({"t": "QDense", "units": rng.pick([2, 3]),
+                   "use_bias": rng.chance(0.7), "kq": wq(),
+                   "bq": rng.pick([qb, None])})
+  return {"input": "img", "wseed": rng.subseed() % 1000, "layers": layers,
+          "out": rng.pick(["none", "none", "dense"])}
+
+
 def generate(rng):
+  if rng.chance(0.15):
+    ops = [{"k": "FREEZE", "hw": rng.chance(0.3)}]
+    if rng.chance(0.3):
+      ops.append({"k": "PERTURB", "seed": rng.subseed(), "scale": 1.0})
+    ops.append({"k": "EXPORT", "file": rng.chance(0.4)})
+    if rng.chance(0.5):
+      ops.append({"k": "CRASH_ALL"})
+    return {"seed": rng.subseed(), "world": gen_freeze_world(rng), "ops": ops}
   world = gen_c14_model(rng)
   ops = []
   if rng.chance(0.3):
